@@ -29,7 +29,7 @@ NOT decided: greedy chunk boundaries and equality of the accept set with an inde
 
 ASSUMPTIONS = ['the canonical format is the one described in the property (252 / 64008 / radix 253 / FE FD)']
 
-FLOORS = {'R7.1': 5, 'R7.2': 6, 'R7.3': 7, 'R7.4': 14, 'R7.5': 7}
+FLOORS = {'R7.1': 5, 'R7.2': 6, 'R7.3': 7, 'R7.4': 14, 'R7.5': 7, 'R7.6': 23}
 
 
 def r7_1(cx):
@@ -330,4 +330,63 @@ def r7_5(cx):
         cx.records.append(r)
 
 
-RULES = [('R7.1', r7_1), ('R7.2', r7_2), ('R7.3', r7_3), ('R7.4', r7_4), ('R7.5', r7_5)]
+def r7_6(cx):
+    """lengths are never silently truncated: every narrowing integer cast in the codec is proved lossless or audited; a chunk step consumes min(input.len(), remaining)"""
+    from engine.woodlint.core import table
+    from engine.woodlint.linear import PathEval, int_range
+    prog = cx.prog
+    audited = table('c07_casts')
+    fns = [f for f in prog.fns.values() if f.crate == 'hcobs' and not f.d.get('derived') and 'fmt::' not in f.name and f.kind != 'Closure' or
+           (f.crate == 'hcobs' and f.kind == 'Closure')]
+    for fn in sorted(fns, key=lambda f: f.name):
+        casts = []
+        for pos, st in fn.statements():
+            if st['k'] == 'assign' and st['rv']['k'] == 'cast' and st['rv']['ck'] == 'IntToInt':
+                casts.append(pos)
+        if not casts:
+            continue
+        proved = {}
+        if fn.is_acyclic():
+            pe = PathEval(fn, {}, prog=prog)
+            pe.run(lambda path, st: None)
+            cx.count_paths(pe.paths)
+            for ob in pe.obligations:
+                if ob['kind'] == 'cast':
+                    k = tuple(ob['pos'])
+                    proved[k] = proved.get(k, True) and ob['ok']
+        for i, pos in enumerate(sorted(casts)):
+            st = fn.blocks[pos.bb]['st'][pos.idx]
+            o = st['rv']['o']
+            dty = st['rv']['ty']
+            inst = 'cast#%d:%s' % (i, short(fn.name))
+            key = '%s|cast|%d' % (fn.name, i)
+            ok = proved.get((pos.bb, pos.idx))
+            if ok is None:
+                # not an integer the evaluator tracks (or a loop): widening casts are fine by type alone
+                sty = fn.locals[o['pl']['l']] if o['k'] in ('copy', 'move') and not o['pl']['p'] else (o.get('ty') or '')
+                rs, rd = int_range(sty), int_range(dty)
+                ok = bool(rs and rd and rd[0] <= rs[0] and rs[1] <= rd[1])
+            cx.count_sites()
+            if ok:
+                cx.ok(inst, fn, fn.loc(pos.bb, pos.idx), '`as %s` is lossless on every path' % dty)
+            elif key in audited:
+                cx.ok(inst + ':audited', fn, fn.loc(pos.bb, pos.idx), 'NOT DECIDED (audited): ' + audited[key])
+            else:
+                cx.fail(inst, fn, fn.loc(pos.bb, pos.idx), '`%s as %s` can drop high bits: the value is not bounded by the target type on every path '
+                        '(a length or count truncated this way makes the codec depend on how the input was split)' % (show(fn.operand_expr(o))[:80], dty))
+    # the two chunk steps consume min(input.len(), remaining as usize)
+    for nm in ('decode_borrow', 'decode_copy'):
+        f = prog.fn('hcobs::decoder::InChunk::' + nm)
+        up = list(f.calls('hcobs::decoder::InChunk::update'))
+        okm = False
+        if len(up) == 1:
+            n = up[0].arg(1).strip()
+            if is_call(n, 'Ord::min') and len(n.args) == 2:
+                a = [x.strip() for x in n.args]
+                okm = any(is_call(x, 'len') and x.args[0].strip().kind == 'param' for x in a) and \
+                    any(is_call(x, 'NonZero::get') and any(is_param_field(y, 'remaining') for y in x.walk()) for x in a)
+        cx.check(okm, 'chunk-step:' + nm, f, up[0].loc() if up else None, 'update(min(input.len(), remaining as usize))',
+                 fail_detail='InChunk::%s does not consume min(input.len(), remaining as usize)' % nm)
+
+
+RULES = [('R7.1', r7_1), ('R7.2', r7_2), ('R7.3', r7_3), ('R7.4', r7_4), ('R7.5', r7_5), ('R7.6', r7_6)]
